@@ -116,6 +116,11 @@ class Ctx:
     def has_violation(self, mechanism: str) -> bool:
         return mechanism in self.violations
 
+    def should_shrink(self, mechanism: str) -> bool:
+        """Shrinking is expensive: only the first few witnesses per mechanism are minimised."""
+        rec = self.violations.get(mechanism)
+        return rec is None or rec["count"] < 3
+
     # ---- sharding -------------------------------------------------------
     def dump_state(self) -> dict:
         return {
